@@ -13,7 +13,7 @@ CHECKS = {
  "C13": dict(
   technique="explicit-state model checking: exhaustive enumeration of all block/parameter sequences <= depth through the real app.EndBlock, oracle = independent math/big 18-decimal fixed-point reference stepped in lock-step",
   engine="E1",
-  text="Every sequence (quick: <=4, thorough: <=5 steps) over {blocks with dt in a boundary set incl. year/leap-day crossings, coefficient, max-supply relative to the current supply, enable/disable, real delegations} runs through the real EndBlock of the whole app on branches of the deliver state; minted amount, fee-collector delta, cap clamp, auto-disable, disabled and first-block-after-activation rules are compared with the reference on every block. Bounded-exhaustive.",
+  text="Every sequence (quick: <=4, thorough: <=5 steps) over {blocks with dt in a boundary set incl. year/leap-day crossings, a macro step running into the cap, coefficient, max-supply relative to the current supply, enable/disable, real delegations} runs through the real EndBlock of the whole app on branches of the deliver state; minted amount, fee-collector delta, cap clamp, auto-disable, disabled and first-block-after-activation rules are compared with the reference on every block. Bounded-exhaustive.",
   note="Trusted: sdk bank/staking, the virtual block boundary (real EndBlock + transient reset + real BeginBlock, no IAVL commit), parameters set through the keeper. Year length taken from the minting block's year; exact rounding ties accepted either way.",
   design="DESIGN.md §3 C13"),
  "C17": dict(
@@ -31,7 +31,7 @@ CHECKS = {
  "C11": dict(
   technique="exhaustive grid enumeration of the split arithmetic plus explicit-state exploration (DFS, digest dedup) of liquidate/transfer/redeem/time sequences on the real msg servers with conservation and shadow-world no-early-unlock oracles in every state",
   engine="E1",
-  text="Pure part: SubtractAmountFromPeriods on every period list with <=3 periods, amounts 0..4 (thorough 0..6), optional second denomination and every subtrahend 0..total+1; CurrentPeriodShift at every integer time. Stateful part: every sequence <= 3 (thorough 4) of liquidate (amount classes 1/half/all/all+1, to self or another holder), liquid-token transfer, redeem (to self / plain account / another vesting account with earlier or later start) and time jumps; in every state module backing == liquid supply, schedule sum == supply per denom, exact debit/credit per step, account+denom schedule == original schedule after a split, and total locked(t') >= locked in the world where nothing was liquidated for all future event times.",
+  text="Pure part: SubtractAmountFromPeriods on every period list with <=3 periods, amounts 0..4 (thorough 0..6), optional second denomination and every subtrahend 0..total+1; CurrentPeriodShift at every integer time. Stateful part: every sequence <= 3 (thorough 4) of liquidate (amount classes 1/half/all/all+1, to self or another holder), liquid-token transfer, redeem (to self / plain account / another vesting account with earlier or later start) and time jumps; in every state module backing == liquid supply, schedule sum == supply per denom, exact debit/credit per step, account+denom schedule == original schedule after a split, and total locked(t') >= locked in the world where nothing was liquidated for all future event and end times, with every account's locked amount asked of the account object itself (GetLockedUpCoins).",
   note="Messages through the msg-service router; block time set on the branch header; liquid tokens moved by ConvertERC20 + bank send; small integer amounts with minimum liquidation amount parameter set to 1.",
   design="DESIGN.md §3 C11"),
  "C18": dict(
@@ -43,7 +43,7 @@ CHECKS = {
  "C03": dict(
   technique="bounded exhaustive exploration of post-signing mutations and submission orders through the real DeliverTx on branches of the deliver state, judged by a reference automaton (sequence number + validly signed payload set)",
   engine="E1",
-  text="For seven transaction kinds (eth legacy / access-list / dynamic-fee, Cosmos DIRECT, Cosmos LEGACY_AMINO_JSON, legacy EIP-712 with Web3Tx extension, EIP-712-signed sign doc) every single-field mutation applied after signing (tx fields, signature values incl. malleated s and flipped v, chain id, Cosmos envelope fields, signer info, extension options, sign-doc account number / foreign key) is delivered, each followed by the untouched original; and every order <= 3 (thorough 4) over {t(n), t(n+1), t(n+1) and t(n) signed for another chain id, t(n+2), mutated t(n)} is delivered. Accepted iff validly signed for the current sequence; accepted transactions advance the sequence by exactly one and transfer exactly once.",
+  text="For seven transaction kinds (eth legacy / access-list / dynamic-fee, Cosmos DIRECT, Cosmos LEGACY_AMINO_JSON, legacy EIP-712 with Web3Tx extension, EIP-712-signed sign doc) every single-field mutation applied after signing (tx fields, signature values incl. malleated s and flipped v, chain id, Cosmos envelope fields, signer info, extension options, sign-doc account number / foreign key) is delivered, each followed by the untouched original; every order <= 3 (thorough 4) over {t(n), t(n+1), t(n+1) and t(n) signed for another chain id, t(n+2), mutated t(n)} is delivered; and every multi-message Ethereum envelope of <= 3 (thorough 4) messages drawn from two senders' {current nonce, next nonce} plus a message signed for another chain id and (legacy) one without chain id. Accepted iff validly signed for the current sequence; accepted transactions advance the sequence by exactly one and transfer exactly once.",
   note="DeliverTx only (CheckTx uses the same ante chain on a state the harness does not branch). Base fee enabled in the fixture so dynamic-fee txs are admissible. Only-if direction; acceptance of every valid kind is required as a vacuity guard.",
   design="DESIGN.md §3 C03"),
  "C06": dict(
@@ -67,14 +67,14 @@ CHECKS = {
  "C05": dict(
   technique="exhaustive enumeration of a bounded call-tree family, each tree synthesised as EVM bytecode and executed twice through the real DeliverTx (as is / with the failing frames switched off by a storage switch in identical code) with a diff of all persistent stores, logs and supply; plus a model-checked re-entry family",
   engine="E1",
-  text="All call trees over {root, child (thorough: grandchild)} x endings {STOP, REVERT, INVALID} per frame x child caught/bubbled x attached value x one precompile leaf (staking delegate for signer / for itself, undelegate, approve; distribution setWithdrawAddress, withdrawDelegatorRewards; read-only bank.totalSupply by CALL and STATICCALL, staking.validator by STATICCALL; or none) at every position: 1038 trees (thorough 3198). A = the program; B = same bytecode with the frames that fail in A made to revert at entry. Revert-leaves-no-trace iff A == B on every persistent store, receipt logs and supply, and A == pre-state (but the nonce) when the top frame fails. A second family re-enters one parametric contract up to 2 (thorough 3) times with every combination of slot / value / outcome / attached value and checks final storage and balances against a surviving-calls-only model.",
-  note="Gas price 0. Child frames get a fixed gas allowance so INVALID endings do not starve the parent. ICS-20 leaves are not in the family.",
+  text="All call trees over {root, child (thorough: grandchild)} x endings {STOP, REVERT, INVALID} per frame x child caught/bubbled x attached value x one precompile leaf (staking delegate for signer / for itself, undelegate, approve; distribution setWithdrawAddress, withdrawDelegatorRewards; ics20.transfer; read-only bank.totalSupply by CALL and STATICCALL, staking.validator by STATICCALL; or none) at every position: 1149 trees (thorough ~3500). A = the program; B = same bytecode with the frames that fail in A made to revert at entry. Revert-leaves-no-trace iff A == B on every persistent store, receipt logs and supply, and A == pre-state (but the nonce) when the top frame fails. Receipt logs are compared as (index, address, topic) lists: every frame logs before and after its items with its own topics. A second family re-enters one parametric contract up to 2 (thorough 3) times with every combination of slot / value (incl. clearing a committed slot) / outcome / attached value and checks final storage and balances against a surviving-calls-only model. A third family lets the contract also SELFDESTRUCT, directly or through a wrapper that survives or reverts: all 584 sequences <= 3 over 8 calls, checked for existence of the contract, storage, four balances and supply against the surviving calls (classic self-destruct semantics).",
+  note="Gas price 0. Child frames get a fixed gas allowance so INVALID endings do not starve the parent. The ICS-20 leaf runs over the loopback channel.",
   design="DESIGN.md §3 C05"),
  "C02": dict(
   technique="exhaustive scenario grid, each scenario synthesised as EVM bytecode and run through the real DeliverTx on a branch, compared with a native replay (bank sends + the module's own message) on a sibling branch; supply invariant on every scenario",
   engine="E1",
-  text="Grid: topology {EOA->precompile, EOA->contract->precompile, EOA->contract->contract->precompile} x value attached per hop x {staking.delegate for the signer or for the calling contract with amount 1/mid/all/all+1, staking.undelegate, distribution.withdrawDelegatorRewards, claimRewards, setWithdrawAddress} x pre-state {pending rewards, withdraw address elsewhere, no rewards} x journal-dirty set {none, signer, withdrawer} (396 scenarios) plus control scenarios (value chains, failing hop, self-destruct to other / to self). Oracles: total supply unchanged (self-destruct-to-self: exactly -value); bank, staking and distribution stores equal to the native replay; success/failure agree.",
-  note="Gas price 0 (fee flow is C07). Contract callers hold generic staking grants from the signer. Frames that revert are C05's subject.",
+  text="Grid: topology {EOA->precompile, EOA->contract->precompile, EOA->contract->contract->precompile} x value attached per hop x {staking.delegate for the signer or for the calling contract with amount 1/mid/all/all+1, staking.undelegate, distribution.withdrawDelegatorRewards, claimRewards, setWithdrawAddress, ics20.transfer for the signer or the calling contract over the loopback channel} x pre-state {pending rewards, withdraw address elsewhere, no rewards, contract-as-delegator with rewards} x journal-dirty set {none, signer, withdrawer} (639 scenarios) plus control scenarios (value chains, failing hop, self-destruct to other / to self) and the self-destruct family of C05 (584 programs with reverted / repeated self-destructs of a dirty contract). Oracles: total supply unchanged (self-destruct: exactly minus what the destroyed contract still held); bank, staking, distribution and ibc stores equal to the native replay; success/failure agree. Every clean scenario is run once more with a gas price of 1 gwei: same verdict, supply unchanged, bank store equal to the run at price 0 except that the signer paid exactly gasUsed x price to the fee collector.",
+  note="Fee arithmetic itself is C07; here the priced run only demands that the fee is the sole difference. Contract callers hold generic staking grants and a transfer authorization from the signer. Frames that revert are C05's subject.",
   design="DESIGN.md §3 C02"),
  "C04": dict(
   technique="exhaustive identity-matrix grid of synthesised call trees through the real DeliverTx with a frame rule on account snapshots, plus explicit-state exploration (DFS, digest dedup) of allowance histories with a per-step allowance rule",
@@ -85,7 +85,7 @@ CHECKS = {
  "C08": dict(
   technique="explicit-state exploration: exhaustive enumeration of all operation sequences <= depth per schedule fixture through the real DeliverTx on branches, with an independent step-function reference of the locked amount evaluated after every successful transaction",
   engine="E1",
-  text="3 (thorough 5) lockup/vesting schedule fixtures (vested-but-locked and unlocked-but-unvested windows included) x every sequence <= 3 (thorough 4) over 58 operations: spend attempts on 9 paths (bank send, multi-send, EVM value transfer, transfer forwarded by a contract, fee payment, DAO funding, governance deposit, ICS-20 transfer by message, ICS-20 transfer through the precompile) x {1, spendable, spendable+1, whole balance}; delegation by message / by authz exec / through the staking precompile x {1, max delegatable, max+1}; undelegation; block boundary with unbonding completion; 50% slash; clawback; block-time jumps to every schedule event +-1. After every successful non-delegation transaction balance >= max(original - unlockedVested - trackedDelegated, unvested) computed from the grant parameters; every successful delegation <= balance - unvested; tracked delegation bounded by the reference's own counter.",
+  text="3 (thorough 5) lockup/vesting schedule fixtures (vested-but-locked and unlocked-but-unvested windows included) x every sequence <= 3 (thorough 4, exhaustive with state dedup: all stores + block time + reference model) over 60 operations: spend attempts on 9 paths (bank send, multi-send, EVM value transfer, transfer forwarded by a contract, fee payment, DAO funding, governance deposit, ICS-20 transfer by message, ICS-20 transfer through the precompile) x {1, spendable, spendable+1, whole balance}; delegation by message / by authz exec / through the staking precompile x {1, max delegatable, max+1}; undelegation; block boundary with unbonding completion; 50% slash; clawback; a second, partly vested grant with automatic staking (MsgConvertIntoVestingAccount stake=true); conversion back to a plain account (MsgConvertVestingAccount); block-time jumps to every schedule event +-1. After every successful non-delegation transaction that lowered the balance, balance >= max(original - unlockedVested - trackedDelegated, unvested) computed from the grant parameters; every successful delegation <= balance - unvested; tracked delegation bounded by the reference's own counter; an account conversion succeeds only when nothing is unvested or locked, and the locked amount stays owed whatever the account type.",
   note="Zero gas prices (explicit fee operation instead). ERC-20 conversion is not in this alphabet (the vesting denomination of the fixtures is the staking/EVM denomination, which cannot be a token pair); liquidation moves locked coins by design and is C11's subject.",
   design="DESIGN.md §3 C08"),
  "C01": dict(
